@@ -30,7 +30,10 @@ TRUSTED = ["os.walk / importlib (the tree is supplied to the model by the harnes
 FILES = ["tests.py", "test_a.py", "test_b.py", "testx.py", "ftests.py", "helper.py", "__init__.py", "tests.pyc",
          "test_c.pyc", "data.txt", "tests.txt", ".py", "test_b.pyc", "conftest.py"]
 DIRS = ["tests", "pkg", "sub", "ftests", "not-ident", ".git", "node_modules", "__pycache__", "CVS", "1bad", "_ok", "Tests",
-        "pkgx", "sub2", "_darcs", "lambda", "import", "in", "build"]
+        "pkgx", "sub2", "_darcs", "lambda", "import", "in", "build",
+        # upper and mixed case: "sorted by path" is the order of the code points (capitals before '_' before small
+        # letters), and names that differ only in case are different directories
+        "Pkg", "PKG", "Sub", "Zlib", "Alpha", "Products"]
 
 MODULE_SRC = """import os, json
 _t = os.environ.get("ZTR_TRACE")
@@ -173,12 +176,26 @@ def run(ctx, n=None, module_gate_only=False):
                              # packages that can be imported but lie outside every search path (an installed copy, the
                              # standard library): nothing of the tree is "inside --package"
                              [("json",)], [("email", "mime"), ("pkg",)], [("xml", "dom"), ("json",)]][idx]
+        directed_nested = None
+        if not module_gate_only and 9 <= idx < 17:
+            # directed: search paths nested in each other, given in every order (a file belongs to the longest search
+            # path above it: that decides its module name), the module names observed through a real run
+            leaf = lambda: {"files": ["__init__.py", "tests.py", "test_a.py"], "subs": []}  # noqa: E731
+            tree = {"files": ["tests.py"], "subs": [["src", {"files": ["tests.py"], "subs": [["pkg", leaf()], ["lib", {"files": [], "subs": [["pkg2", leaf()]]}]]}],
+                                                    ["other", {"files": ["tests.py"], "subs": []}]]}
+            directed_nested = [[(), ("src",)], [("src",), ()], [(), (), ("src",), ("src", "lib")], [("src", "lib"), (), ("src",)],
+                               [("src",), ("src", "lib"), ()], [(), ("other",), ("src",)], [("src",), ("src",), ("src", "lib")],
+                               [(), ("src", "lib")]][idx - 9]
         d = os.path.join(ctx.tmp, "disc%05d" % idx)
-        materialize(tree, d, rng if directed_pkgs is None else random_no_links())
+        materialize(tree, d, rng if directed_pkgs is None and directed_nested is None else random_no_links())
         dirs = [p for p in all_dirs(tree)]
         roots = [()] if (rng.random() < 0.5 or directed_pkgs) else [rng.choice(dirs) for _ in range(rng.choice([1, 2, 3]))]
         if rng.random() < 0.2:
             roots.append(roots[0])
+        if directed_nested is not None:
+            # (entries at odd positions are given with --test-path and come first in options.test_path: both spellings
+            # of every order are exercised over the eight cases)
+            roots = list(directed_nested)
         args = ["prog"]
         orig_roots = list(roots)
         for k, r in enumerate(roots):
@@ -277,7 +294,7 @@ def run(ctx, n=None, module_gate_only=False):
             args += ["-m", mfilter]
             with contextlib.redirect_stdout(io.StringIO()):
                 options = get_options(list(args), [])
-        if (idx % 4 == 0 or module_gate_only or isinstance(mfilter, list)) and not usec:
+        if (idx % 4 == 0 or module_gate_only or isinstance(mfilter, list) or directed_nested is not None) and not usec:
             pr = subprocess.run([common.PY, "-m", "zope.testrunner", "--list-tests"] + args[1:], cwd=ctx.tmp, env=env,
                                 stdout=subprocess.PIPE, stderr=subprocess.PIPE, timeout=120)
             out = pr.stdout.decode("utf-8", "replace")
